@@ -9,6 +9,7 @@ import S4V.Model.Coord
 import S4V.Model.Time
 import S4V.Model.Syslines
 import S4V.Model.Gate
+import S4V.Model.SortDrain
 
 open S4V.Model S4V.Model.Wire
 
@@ -149,6 +150,30 @@ def stepGate : List String → String
     | _, _ => "bad-op"
   | _ => "bad-op"
 
+def parsePair (s : String) : Option (Int × Int) :=
+  match s.splitOn ":" with
+  | [a, b] => match parseInt? a, parseInt? b with
+    | some a, some b => some (a, b)
+    | _, _ => none
+  | _ => none
+
+def optPair (s : String) : Option (Option (Int × Int)) := if s = "n" then some none else (parsePair s).map some
+
+def stepSort : List String → String
+  | ["fixed", a, b, recs] =>
+    match optPair a, optPair b, (if recs = "-" then some [] else (recs.splitOn ",").mapM parsePair) with
+    | some a, some b, some tvs =>
+      let rs : List SortDrain.Rec := tvs.zipIdx.map fun (tv, i) => ⟨tv, i⟩
+      String.intercalate "," ((SortDrain.fixedPrint rs a b).map toString)
+    | _, _, _ => "bad-op"
+  | ["evtx", a, b, evs] =>
+    match optT a, optT b, (if evs = "-" then some [] else (evs.splitOn ",").mapM parseInt?) with
+    | some a, some b, some tss =>
+      let es : List SortDrain.Ev := tss.zipIdx.map fun (t, i) => ⟨t, i⟩
+      String.intercalate "," ((SortDrain.evtxPrint es a b).map toString)
+    | _, _, _ => "bad-op"
+  | _ => "bad-op"
+
 def step (line : String) : String :=
   match words line with
   | "path" :: rest => stepPath rest
@@ -157,6 +182,7 @@ def step (line : String) : String :=
   | "coord" :: rest => stepCoord rest
   | "sysl" :: rest => stepSysl rest
   | "gate" :: rest => stepGate rest
+  | "sort" :: rest => stepSort rest
   | _ => "bad-op"
 
 partial def loop (h : IO.FS.Stream) (out : IO.FS.Stream) : IO Unit := do
